@@ -328,3 +328,26 @@ mut('c10-single-match-shortcut', 'C10', 'R10.2', ('task.py', "    matching_tasks
 
 ben('ben-c10-len-eq-one', ['C10'], ('task.py', "    if len(matching_tasks) == 0:\n        raise KeyError(f'Task `{task_name}` not found')\n    return matching_tasks[0]", "    if len(matching_tasks) == 0:\n        raise KeyError(f'Task `{task_name}` not found')\n    (only_match,) = matching_tasks\n    return only_match"))
 ben('ben-c10-candidate-separator', ['C10', 'C08'], ('task.py', "            if all(t == cand or t.endswith(f':{cand}') for t in matching_tasks):", "            if all(t == cand or t.endswith(':' + cand) for t in matching_tasks):"))
+
+# ---------------------------------------------------------------------------------------------- C09
+mut('c09-prefix-config-ne', 'C09', 'R09.6', ('chain.py', "tasks[task_name].get_config() is not _task.get_config():", "tasks[task_name].get_config() != _task.get_config():"))
+mut('c09-prefix-first-pass-sharing', 'C09', 'R09.7', ('chain.py', "task_registry=None if self._parameter_mode else self._task_registry", "task_registry={} if self._parameter_mode else self._task_registry"))
+mut('c09-context-order-swapped', 'C09', 'R09.1', ('config.py', "        self._data.update(deepcopy(context.data))\n        if self.namespace:\n            for namespace, data in context.for_namespaces.items():\n                if self.namespace == namespace:\n                    self._data.update(deepcopy(data))",
+                                                  "        if self.namespace:\n            for namespace, data in context.for_namespaces.items():\n                if self.namespace == namespace:\n                    self._data.update(deepcopy(data))\n        self._data.update(deepcopy(context.data))"))
+mut('c09-no-deepcopy-global', 'C09', 'R09.2', ('config.py', "        self._data.update(deepcopy(context.data))", "        self._data.update(context.data)"))
+mut('c09-no-deepcopy-namespace', 'C09', 'R09.2', ('config.py', "                    self._data.update(deepcopy(data))", "                    self._data.update(data)"))
+mut('c09-namespace-prefix-match', 'C09', 'R09.3', ('config.py', "                if self.namespace == namespace:", "                if self.namespace.startswith(namespace):"))
+mut('c09-merge-reversed', 'C09', 'R09.1', ('config.py', "        for context in contexts:\n            data.update(context.data)", "        for context in reversed(list(contexts)):\n            data.update(context.data)"))
+mut('c09-merge-first-wins', 'C09', 'R09.1', ('config.py', "                for_namespaces[namespace].update(values)", "                for key, value in values.items():\n                    for_namespaces[namespace].setdefault(key, value)"))
+mut('c09-merge-aliases-first', 'C09', 'R09.2', ('config.py', "        for_namespaces = defaultdict(dict)\n", "        for_namespaces = {}\n"),
+    ('config.py', "                for_namespaces[namespace].update(values)", "                if namespace not in for_namespaces:\n                    for_namespaces[namespace] = values\n                else:\n                    for_namespaces[namespace].update(values)"))
+mut('c09-used-config-no-context', 'C09', 'R09.4', ('chain.py', "                        namespace=config.namespace if config.namespace else None,\n                        global_vars=config.global_vars,\n                        context=config.context,", "                        namespace=config.namespace if config.namespace else None,\n                        global_vars=config.global_vars,"))
+mut('c09-namespace-not-composed', 'C09', 'R09.4', ('chain.py', "namespace=f'{config.namespace}::{matched[2]}' if config.namespace else matched[2],", "namespace=matched[2],"))
+mut('c09-required-silently-none', 'C09', 'R09.5', ('parameter.py', "            if self.required:\n                raise ValueError(f'Value for parameter `{self}` not found in config `{config}`')\n            value = self.default", "            value = None if self.required else self.default"))
+mut('c09-dtype-not-checked', 'C09', 'R09.5', ('parameter.py', "                raise ValueError(\n                    f'Value `{value}` of parameter `{self}` has type {type(value)} instead of `{self.dtype}`'\n                )", "                pass"))
+mut('c09-none-falls-to-default', 'C09', 'R09.5', ('parameter.py', "        if self.name_in_config in config:\n            value = config[self.name_in_config]\n        else:", "        if config.get(self.name_in_config) is not None:\n            value = config[self.name_in_config]\n        else:"))
+mut('c09-conflict-by-name', 'C09', 'R09.6', ('chain.py', "tasks[task_name].get_config() is not _task.get_config():", "tasks[task_name].get_config().name != _task.get_config().name:"))
+mut('c09-all-uses-rewritten', 'C09', 'R09.8', ('config.py', "            if isinstance(use, str) and use.startswith('#'):", "            if isinstance(use, str):"))
+mut('c09-object-use-keeps-own-context', 'C09', 'R09.4', ('chain.py', "                use.context = config.context\n                use._prepare()", "                use._prepare()"))
+
+ben('ben-c09-deepcopy-local', ['C09', 'C01'], ('config.py', "        self._data.update(deepcopy(context.data))", "        own_copy = deepcopy(context.data)\n        self._data.update(own_copy)"))
